@@ -185,9 +185,12 @@ func (s *Solver) Check(assumptions []*Term, wantModel bool) (SatResult, Model, s
 	start := time.Now()
 	defer func() { s.Time += time.Since(start) }()
 	s.Queries++
-	for _, a := range assumptions {
-		if a.fp {
-			return s.oneShot(assumptions, wantModel)
+	if os.Getenv("VP_FP_INCREMENTAL") == "" {
+		// incremental cores do badly on floating point (measured: 4x slower even on z3 5.1): go one-shot
+		for _, a := range assumptions {
+			if a.fp {
+				return s.oneShot(assumptions, wantModel)
+			}
 		}
 	}
 	if s.Queries%2000 == 0 {
